@@ -110,7 +110,7 @@ pub fn voicing(rng: &mut Rng, n: usize, msd: bool) -> Vec<f64> {
     if !msd {
         return vec![f64::MAX; n];
     }
-    let style = rng.below(6);
+    let style = rng.below(7);
     (0..n)
         .map(|i| match style {
             0 => 0.9,                                             // all voiced
@@ -118,6 +118,9 @@ pub fn voicing(rng: &mut Rng, n: usize, msd: bool) -> Vec<f64> {
             2 => if rng.chance(0.5) { 0.9 } else { 0.1 },         // random, islands of 1 and 2 likely
             3 => if (i / 2) % 2 == 0 { 0.8 } else { 0.2 },        // islands of exactly two states
             4 => if i % 2 == 0 { 0.7 } else { 0.3 },              // islands of one state
+            // exact ties with the threshold (0.5) and its f64 neighbours: a weight equal to the threshold is unvoiced
+            // (seeded change C05h: `>=`)
+            5 => *rng.pick(&[0.5, 0.5, f64::from_bits(0.5f64.to_bits() + 1), f64::from_bits(0.5f64.to_bits() - 1), 0.9, 0.1]),
             _ => rng.unit(),
         })
         .collect()
